@@ -210,7 +210,8 @@ def cases(draw, lms=None):
             'gpn'     : draw(st.sampled_from([0, 1, 2, 4, 6, 8])),
             'smt'     : draw(st.sampled_from([1, 1, 2, 4])),
             'idx_base': draw(st.sampled_from([0, 0, 1])),
-            'names'   : draw(st.sampled_from(['node', 'nid', 'dash', 'fqdn'])),
+            'names'   : draw(st.sampled_from(['node', 'nid', 'dash', 'fqdn', 'hostlike'] +
+                                             (['hostlike'] * 3 if fam in ('FORK', 'SSH', 'RSH') else []))),
             'req_gpus': draw(st.booleans()),
             'exact'   : draw(st.booleans()),
             'os_req'  : draw(st.booleans()),
